@@ -3,6 +3,8 @@ import M3d.Lemmas.MarchingSide
 import M3d.Lemmas.DualContour
 import M3d.Lemmas.MarchingFilter
 import M3d.Lemmas.LookupEdge
+import M3d.Lemmas.SearchSpec
+import M3d.Lemmas.LookupEdgeArr
 import M3d.Lemmas.DcBlock
 import M3d.Lemmas.MarchingGlue
 import M3d.Gen.McTable
@@ -18,7 +20,7 @@ Property theorems only.  Models: `M3d/Model/Bisect.lean` (the refinement loops o
 `K` is any linear ordered field (ℚ — the type the driver executes — and ℝ included).
 -/
 namespace M3d.C02
-open M3d.Bisect M3d.Marching M3d.DC M3d.Gen M3d.Partition M3d.MarchingFilter M3d.DcBlock M3d.MarchingGlue
+open M3d.Bisect M3d.Marching M3d.DC M3d.Gen M3d.Partition M3d.MarchingFilter M3d.DcBlock M3d.MarchingGlue M3d.SearchSpec
 
 set_option linter.unusedSectionVars false
 variable {K : Type} [Field K] [LinearOrder K] [IsStrictOrderedRing K]
@@ -202,6 +204,213 @@ theorem ms_lookup_recovers (mn c : List Rat) (d : Rat) (hd : 0 < d) (k : Nat) (z
   msLookup_recovers mn c d hd k z ho hc hlat hmid
 
 example : msLookup [1, 1] 1 [0, 1 / 2] = some (1, 0, 1) := by decide +kernel
+
+/-! ## 1b. search refinement on the lattice the spacer STORES (floating-point lattices)
+
+On a decimal spacing the lattice is the array the spacer accumulated; "lattice value `i`" computed in any other
+way (`values[i-1] + (values[1] - values[0])`, `vertex − |Mod(vertex − Min, δ)|`) may differ from the stored
+number by an ulp, and a face of the solid may pass between the two.  What the marching pass knows — the
+classification at the STORED ends — is what has to orient the bisection. -/
+
+/-- Whatever the starting bracket, each end of the final bracket is either the starting end or a midpoint
+the loop evaluated, with the matching result (excluded for `falsePoint`, contained for `truePoint`). -/
+theorem bisect_ends_tested_or_initial (P : K → Bool) (s : K × K) (n : Nat) :
+    ((bisect P s n).1 = s.1 ∨ P (bisect P s n).1 = false) ∧
+    ((bisect P s n).2 = s.2 ∨ P (bisect P s n).2 = true) :=
+  bisect_ends_tested' P n s
+
+/-- **`SearchSpec.changes` lists exactly the real transitions of an edge** (the decision procedure of the
+`mcl` / `msl` kinds): for a classification that is constant between consecutive breakpoints
+`a = t₀ < t₁ < … < tₘ` (boxes / half-spaces along a lattice line, breakpoints = lattice ends and face
+coordinates), `c ∈ changes P ts` iff `c` is a point of the edge every neighbourhood of which contains points of
+the edge of both classes; hence `nearTransition P ts v w` iff a real transition is within `w` of `v`. -/
+theorem near_transition_decides (P : K → Bool) (a : K) (r : List K) (hinc : Incr (a :: r))
+    (hpw : PwConst P (a :: r)) (v w : K) :
+    (∀ c, c ∈ changes P (a :: r) ↔ IsTransition P a (lastOf a r) c) ∧
+    (nearTransition P (a :: r) v w = true ↔ ∃ c, IsTransition P a (lastOf a r) c ∧ |v - c| ≤ w) := by
+  refine ⟨fun c => ⟨fun hc => ?_, changes_complete P r a hinc hpw c⟩, nearTransition_iff P a r hinc hpw v w⟩
+  have hb : ∀ (r : List K) (a : K), Incr (a :: r) → ∀ t ∈ a :: r, a ≤ t ∧ t ≤ lastOf a r := by
+    intro r
+    induction r with
+    | nil => intro a _ t ht; simp at ht; subst ht; exact ⟨le_refl _, le_refl _⟩
+    | cons b r ih =>
+      intro a h t ht
+      rcases List.mem_cons.1 ht with h1 | h1
+      · subst h1; exact ⟨le_refl _, le_lastOf _ _ h⟩
+      · exact ⟨le_trans (le_of_lt h.1) (ih b h.2 t h1).1, (ih b h.2 t h1).2⟩
+  exact changes_sound P a (lastOf a r) (a :: r) hinc hpw (hb r a hinc) c hc
+
+example : changes (fun x : ℚ => decide (1 ≤ x)) [0, 1, 2] = [1] ∧
+    nearTransition (fun x : ℚ => decide (1 ≤ x)) [0, 1, 2] (7 / 8) (1 / 8) = true ∧
+    nearTransition (fun x : ℚ => decide (1 ≤ x)) [0, 1, 2] (1 / 16) (1 / 8) = false := by decide +kernel
+
+/-- **`mcSearchPoint` on the stored ends of a sign-changing edge passes the check**: with `lo < … < hi` the
+breakpoints of the edge, `P` constant between them and `P lo ≠ P hi` (the labels the marching pass sampled at
+the stored lattice values `values[idx]`, `values[idx+1]` that `LookupEdgePoint` returns), the refined vertex is
+within `|hi − lo| / 2^(iters+1)` — and so within any `w ≥` that, e.g. `δ / 2^iters` — of a real transition of
+the edge. -/
+theorem search_stored_lattice_near_transition (P : K → Bool) (lo : K) (r : List K) (hinc : Incr (lo :: r))
+    (hpw : PwConst P (lo :: r)) (iters : Nat) (h : P lo ≠ P (lastOf lo r)) (w : K)
+    (hw : |lastOf lo r - lo| / 2 ^ (iters + 1) ≤ w) :
+    nearTransition P (lo :: r) (mcSearchPoint P lo (lastOf lo r) iters).1 w = true := by
+  set hi := lastOf lo r with hhi
+  have hle : lo ≤ hi := le_lastOf r lo hinc
+  have hends := search_picks_true_end P lo hi h
+  have hb := bisect_within_spacing P (mcEnds P lo hi) iters hends
+  simp only at hb
+  obtain ⟨h1, h2, h3, h4, h5, h6⟩ := hb
+  have hmm : min (mcEnds P lo hi).1 (mcEnds P lo hi).2 = lo ∧ max (mcEnds P lo hi).1 (mcEnds P lo hi).2 = hi ∧
+      |(mcEnds P lo hi).2 - (mcEnds P lo hi).1| = |hi - lo| := by
+    unfold mcEnds
+    by_cases hh : P hi = true
+    · rw [if_pos hh]; exact ⟨min_eq_left hle, max_eq_right hle, rfl⟩
+    · rw [if_neg hh]; exact ⟨min_eq_right hle, max_eq_left hle, abs_sub_comm _ _⟩
+  rw [hmm.1, hmm.2.1] at h5 h6
+  apply nearTransition_mono P _ _ _ w hw
+  have hdef : (mcSearchPoint P lo hi iters).1 = mid (bisect P (mcEnds P lo hi) iters) := rfl
+  rw [hdef]
+  have h2pos : (0 : K) < 2 ^ (iters + 1) := by positivity
+  refine near_of_samples P lo r hinc hpw _ _ (bisect P (mcEnds P lo hi) iters).1
+    (bisect P (mcEnds P lo hi) iters).2 h5 h6 (by rw [h1, h2]; decide) ?_ ?_
+  · rw [h3, ← hmm.2.2, abs_div, abs_of_pos h2pos]
+  · rw [abs_sub_comm, h4, ← hmm.2.2, abs_div, abs_of_pos h2pos]
+
+example : Incr ([0, 1, 2] : List ℚ) ∧ PwConst (fun x : ℚ => decide (1 ≤ x)) [0, 1, 2] ∧
+    (fun x : ℚ => decide (1 ≤ x)) 0 ≠ (fun x : ℚ => decide (1 ≤ x)) (lastOf 0 [1, 2]) := by
+  refine ⟨⟨by norm_num, by norm_num, trivial⟩, ⟨fun x y h1 h2 h3 h4 => ?_, fun x y h1 h2 h3 h4 => ?_, trivial⟩, by decide⟩
+  · have hx : ¬ (1 ≤ x) := not_le.2 h2
+    have hy : ¬ (1 ≤ y) := not_le.2 h4
+    simp [hx, hy]
+  · simp [le_of_lt h1, le_of_lt h3]
+
+/-- **`msSearch` with re-computed ends passes the check as long as the ORIENTATION comes from the labels.**
+`a` (excluded) and `b` (contained) are the stored ends of the edge (`{a, b} = {lo, hi}`), `f0`, `t0` the ends
+the code re-computes from the midpoint (`arr − modulus`, `+ δ`), each within `η` of the stored end it stands
+for, `η` small against the final bracket (`η ≤ |t0 − f0| / 2^iters`).  The bracket is oriented by what the mesh
+knows about the stored ends (the sign of a segment normal: `ms_normal_picks_contained_end`), NOT by evaluating
+the solid at a re-computed end.  Then the refined vertex is within `|t0 − f0| / 2^(iters+1) + η` of a real
+transition of the edge. -/
+theorem ms_search_recomputed_ends_near_transition (P : K → Bool) (lo : K) (r : List K) (hinc : Incr (lo :: r))
+    (hpw : PwConst P (lo :: r)) (a b f0 t0 η : K) (iters : Nat)
+    (hab : (a = lo ∧ b = lastOf lo r) ∨ (a = lastOf lo r ∧ b = lo))
+    (ha : P a = false) (hb : P b = true) (hf : |f0 - a| ≤ η) (ht : |t0 - b| ≤ η)
+    (hη : η ≤ |t0 - f0| / 2 ^ iters) :
+    nearTransition P (lo :: r) (mid (bisect P (f0, t0) iters)) (|t0 - f0| / 2 ^ (iters + 1) + η) = true := by
+  set hi := lastOf lo r with hhi
+  have hle : lo ≤ hi := le_lastOf r lo hinc
+  have hT := bisect_ends_tested' P iters (f0, t0)
+  have hI := bisect_tested_inside P iters (f0, t0)
+  have hW := bisect_width' P iters (f0, t0)
+  simp only at hT hI hW
+  set q := bisect P (f0, t0) iters with hq
+  have h2n : (0 : K) < 2 ^ iters := by positivity
+  have hhalf : |q.2 - q.1| / 2 = |t0 - f0| / 2 ^ (iters + 1) := by
+    rw [hW, abs_div, abs_of_pos h2n, pow_succ]; field_simp
+  have hd1 : |mid q - q.1| = |t0 - f0| / 2 ^ (iters + 1) := by rw [abs_mid_sub_fst, hhalf]
+  have hd2 : |mid q - q.2| = |t0 - f0| / 2 ^ (iters + 1) := by rw [abs_mid_sub_snd, hhalf]
+  have hη0 : 0 ≤ η := le_trans (abs_nonneg _) hf
+  have hfa := abs_le.1 hf
+  have htb := abs_le.1 ht
+  -- the stored ends are on the edge, and so is every tested midpoint
+  have ha_in : lo ≤ a ∧ a ≤ hi := by rcases hab with h | h <;> rw [h.1] <;> exact ⟨by linarith, by linarith⟩
+  have hb_in : lo ≤ b ∧ b ≤ hi := by rcases hab with h | h <;> rw [h.2] <;> exact ⟨by linarith, by linarith⟩
+  have hmin : lo - η ≤ min f0 t0 := by
+    apply le_min
+    · linarith [ha_in.1]
+    · linarith [hb_in.1]
+  have hmax : max f0 t0 ≤ hi + η := by
+    apply max_le
+    · linarith [ha_in.2]
+    · linarith [hb_in.2]
+  have inside : ∀ z, (min f0 t0 + |t0 - f0| / 2 ^ iters ≤ z ∧ z ≤ max f0 t0 - |t0 - f0| / 2 ^ iters) →
+      lo ≤ z ∧ z ≤ hi := fun z hz => ⟨by linarith [hz.1], by linarith [hz.2]⟩
+  -- an excluded sample x and a contained sample y of the edge, both close to the vertex
+  obtain ⟨x, hx_in, hPx, hdx⟩ : ∃ x, (lo ≤ x ∧ x ≤ hi) ∧ P x = false ∧
+      |mid q - x| ≤ |t0 - f0| / 2 ^ (iters + 1) + η := by
+    rcases hT.1 with h | h
+    · refine ⟨a, ha_in, ha, ?_⟩
+      have : mid q - a = (mid q - q.1) + (f0 - a) := by rw [h]; ring
+      rw [this]
+      exact le_trans (abs_add_le _ _) (by rw [hd1]; linarith)
+    · rcases hI.1 with g | g
+      · refine ⟨a, ha_in, ha, ?_⟩
+        have : mid q - a = (mid q - q.1) + (f0 - a) := by rw [g]; ring
+        rw [this]
+        exact le_trans (abs_add_le _ _) (by rw [hd1]; linarith)
+      · exact ⟨q.1, inside _ g, h, by rw [hd1]; linarith⟩
+  obtain ⟨y, hy_in, hPy, hdy⟩ : ∃ y, (lo ≤ y ∧ y ≤ hi) ∧ P y = true ∧
+      |mid q - y| ≤ |t0 - f0| / 2 ^ (iters + 1) + η := by
+    rcases hT.2 with h | h
+    · refine ⟨b, hb_in, hb, ?_⟩
+      have : mid q - b = (mid q - q.2) + (t0 - b) := by rw [h]; ring
+      rw [this]
+      exact le_trans (abs_add_le _ _) (by rw [hd2]; linarith)
+    · rcases hI.2 with g | g
+      · refine ⟨b, hb_in, hb, ?_⟩
+        have : mid q - b = (mid q - q.2) + (t0 - b) := by rw [g]; ring
+        rw [this]
+        exact le_trans (abs_add_le _ _) (by rw [hd2]; linarith)
+      · exact ⟨q.2, inside _ g, h, by rw [hd2]; linarith⟩
+  exact near_of_samples P lo r hinc hpw _ _ x y hx_in hy_in (by rw [hPx, hPy]; decide) hdx hdy
+
+/-- Why the orientation must not be read off a re-computed end (the two shortcuts "the far end is the near end
+plus the first lattice step" in `LookupEdgePoint`, "ask the solid at `arr − modulus + δ`" in `msSearch`): the
+solid `x ≥ 1`, the edge `[0, 1]`, the far end re-computed as `1 − 1/1024`.  Both ends of the bracket are excluded,
+`mcSearchPoint` converges to the wrong end (`1/512` after 8 iterations) and no transition of the edge is within
+`δ / 2^8` of the vertex; from the stored end `1` the vertex is `1 − 1/512` and passes. -/
+example :
+    let P := fun x : ℚ => decide (1 ≤ x)
+    (mcSearchPoint P 0 (1 - 1 / 1024) 8).1 < 1 / 256 ∧
+    nearTransition P [0, 1] (mcSearchPoint P 0 (1 - 1 / 1024) 8).1 (1 / 256) = false ∧
+    nearTransition P [0, 1] (mcSearchPoint P 0 1 8).1 (1 / 256) = true := by decide +kernel
+
+/-- **`LookupEdgePoint` on the stored lattice returns the STORED ends of the edge**, also when the lattice is
+only nearly evenly spaced (accumulated `x += δ` in floating point).  Write every coordinate of the unrefined
+vertex `c` as `values_j[0] + (n_j + t_j)·δ` with `δ = Xs[1] − Xs[0]` and `0 ≤ t_j < 1`: on the axes before `k`
+the coordinate is a stored lattice value that drifted by less than a quarter step (`t_j ∉ (1/4, 3/4)`), on axis
+`k` it is the midpoint of the stored values `n_k`, `n_k + 1` (`1/4 < t_k < 3/4`).  Then the model of
+`LookupEdgePoint` on the stored arrays returns axis `k` and `values_k[n_k]`, `values_k[n_k + 1]` — bit for bit the
+numbers the marching pass evaluated the solid at, so `P lo ≠ P hi` (the edge carries a vertex because its labels
+differ) is exactly the hypothesis of `search_picks_true_end` / `search_stored_lattice_near_transition`. -/
+theorem lookup_edge_arr_recovers (vals : List (List Rat)) (c : List Rat) (k : Nat) (n : Nat → Nat) (t : Nat → Rat)
+    (hd : 0 < (vals.getD 0 []).getD 1 0 - (vals.getD 0 []).getD 0 0)
+    (hv : k < vals.length) (hc : k < c.length)
+    (hlat : ∀ j, j < k → c.getD j 0 - (vals.getD j []).getD 0 0 =
+        ((n j : Rat) + t j) * ((vals.getD 0 []).getD 1 0 - (vals.getD 0 []).getD 0 0) ∧
+        0 ≤ t j ∧ t j < 1 ∧ ¬ (1 / 4 < t j ∧ t j < 3 / 4))
+    (hmid : c.getD k 0 - (vals.getD k []).getD 0 0 =
+        ((n k : Rat) + t k) * ((vals.getD 0 []).getD 1 0 - (vals.getD 0 []).getD 0 0))
+    (h1 : 1 / 4 < t k) (h2 : t k < 3 / 4) (hlen : n k + 1 < (vals.getD k []).length) :
+    lookupEdgeArr vals c = some (k, (vals.getD k []).getD (n k) 0, (vals.getD k []).getD (n k + 1) 0) :=
+  lookupEdgeArr_recovers vals c k n t hd hv hc hlat hmid h1 h2 hlen
+
+/-- a drifted lattice (`Xs[2]` is `1/1024` too large): the stored far end of the edge `Xs[1]..Xs[2]` is returned;
+"near end + first step" gives `2`, a different point — on the other side of a face at `2 + 1/2048`. -/
+example :
+    lookupEdgeArr [[0, 1, 2 + 1 / 1024, 3], [0, 1, 2], [0, 1, 2]] [(1 + (2 + 1 / 1024)) / 2, 1, 1]
+      = some (0, 1, 2 + 1 / 1024) ∧
+    lookupEdgeFar [[0, 1, 2 + 1 / 1024, 3], [0, 1, 2], [0, 1, 2]] [(1 + (2 + 1 / 1024)) / 2, 1, 1]
+      = some (0, 1, 2) := by decide +kernel
+
+/-- **The window of `msSearch` on a nearly evenly spaced lattice**: with the coordinates of the unrefined vertex
+written `Min_j + (z_j + t_j)·δ` as above (`z_j` may be negative: the lattice starts one step below `Min()`), the
+re-computed lower end is the IDEAL lattice value `Min_k + z_k·δ` right of `Min` and `Min_k + (z_k + 2t_k − 1)·δ`
+left of it, the upper end one `δ` further: each is within `|2t_k − 1|·δ` (twice the drift of the midpoint) of the
+ideal value — and so within the drift of the stored value it stands for, the `η` of
+`ms_search_recomputed_ends_near_transition`. -/
+theorem ms_lookup_drift (mn c : List Rat) (d : Rat) (hd : 0 < d) (k : Nat) (z : Nat → Int) (t : Nat → Rat)
+    (ho : k < mn.length) (hc : k < c.length)
+    (hlat : ∀ j, j < k → c.getD j 0 - mn.getD j 0 = ((z j : Rat) + t j) * d ∧
+        0 ≤ t j ∧ t j < 1 ∧ ¬ (1 / 4 < t j ∧ t j < 3 / 4))
+    (hmid : c.getD k 0 - mn.getD k 0 = ((z k : Rat) + t k) * d) (h1 : 1 / 4 < t k) (h2 : t k < 3 / 4) :
+    msLookup mn d c =
+      some (k,
+        mn.getD k 0 + ((z k : Rat) + (if 0 ≤ z k then 0 else 2 * t k - 1)) * d,
+        mn.getD k 0 + ((z k : Rat) + (if 0 ≤ z k then 0 else 2 * t k - 1)) * d + d) :=
+  msLookup_drift mn c d hd k z t ho hc hlat hmid h1 h2
+
+example : msLookup [0, 0] 1 [1, 5 / 2 + 1 / 64] = some (1, 2, 3) ∧
+    msLookup [0, 0] 1 [1, -1 / 2 + 1 / 64] = some (1, -1 + 1 / 32, 1 / 32) := by decide +kernel
 
 /-! ## 2. marching cubes / squares on the whole lattice (regenerated tables) -/
 
@@ -540,7 +749,7 @@ theorem dc_quad_meets_only_own_edge (LX LY LZ : K → Prop) (a b c d e f g h : K
 /-- **`Repair` keeps the cyclic order round a grid edge** (the repaired code, /repo 08bc264): seen
 along a grid edge of the face shared by the two cubes of a singular mesh edge `A–B`, with the ends
 kept `m > 2ε` inside their cubes (`Constrain` with `RepairEpsilon`, the new vertex moved by
-`ε = 0.49·RepairEpsilon` in a unit direction), the inserted vertex lies strictly between `A` and `B`
+`ε = 0.19·RepairEpsilon` — `0.49·RepairEpsilon` before the second repair — in a unit direction), the inserted vertex lies strictly between `A` and `B`
 — the fan of the quad keeps its order and the grid edge is still crossed once.  With the margin `ε` of
 the code before the repair it need not (`repair_midpoint_old_margin_fails`; found by the `dcr`
 correspondence as a lattice edge crossed three times). -/
@@ -555,6 +764,31 @@ example : ∃ (a1 a2 b1 b2 m eps dx dz : ℚ), m ≤ a1 ∧ m ≤ a2 ∧ m ≤ b
     |dx| ≤ 1 ∧ |dz| ≤ 1 ∧
     cross2 ((b1, b2) : ℚ × ℚ) ((-a1 + b1) / 2 + eps * dx, (a2 + b2) / 2 + eps * dz) < 0 :=
   repair_midpoint_old_margin_fails
+
+/-- **The two `Repair` passes together keep the cyclic order round a grid edge** (the code since the second
+repair of /repo: both passes move by `ε = 0.19·RepairEpsilon`).  `repairSingularEdges` inserts the vertex `N` from
+the ends of a singular edge as they are then (`m = RepairEpsilon` inside their cubes) and moves it by `ee`;
+`repairSingularVertices` may afterwards move either end by `ev` (a singular vertex is split into copies, each
+moved in a unit direction `p`, `q`).  For `2·ee + 3·ev < m` — `5·0.19 < 1` — `N` is still strictly between the
+FINAL ends as seen along a grid edge of the shared face: the boundary of the subdivided quad keeps its angular
+order round the grid edge, and the fan is crossed by it exactly once.  With `ee = ev = 0.49·m` it need not
+(`repair_two_passes_old_factor_fails`, the numbers of a real input: found by the `dcr` correspondence on round
+bodies in general position as a lattice edge crossed three times). -/
+theorem dc_repair_two_passes_between (a1 a2 b1 b2 m ee ev dx dz p1 p2 q1 q2 : K)
+    (ha1 : m ≤ a1) (ha2 : m ≤ a2) (hb1 : m ≤ b1) (hb2 : m ≤ b2) (hee : 0 ≤ ee) (hev : 0 ≤ ev)
+    (hm : 2 * ee + 3 * ev < m)
+    (hdx : |dx| ≤ 1) (hdz : |dz| ≤ 1) (hp1 : |p1| ≤ 1) (hp2 : |p2| ≤ 1) (hq1 : |q1| ≤ 1) (hq2 : |q2| ≤ 1) :
+    0 < cross2 ((b1 + ev * q1, b2 + ev * q2) : K × K) ((-a1 + b1) / 2 + ee * dx, (a2 + b2) / 2 + ee * dz) ∧
+    0 < cross2 (((-a1 + b1) / 2 + ee * dx, (a2 + b2) / 2 + ee * dz) : K × K) (-(a1 + ev * p1), a2 + ev * p2) :=
+  repair_two_passes_between a1 a2 b1 b2 m ee ev dx dz p1 p2 q1 q2 ha1 ha2 hb1 hb2 hee hev hm hdx hdz hp1 hp2 hq1 hq2
+
+/-- the constants of the code satisfy the hypothesis (`ee = ev = 0.19·m`), the old ones (`0.49·m`) do not and
+the conclusion fails for them -/
+example : (∀ m : ℚ, 0 < m → 2 * (19 / 100 * m) + 3 * (19 / 100 * m) < m) ∧
+    ∃ (a1 a2 b1 b2 m ee ev dx dz p1 p2 : ℚ), m ≤ a1 ∧ m ≤ a2 ∧ m ≤ b1 ∧ m ≤ b2 ∧
+      ee = 49 / 100 * m ∧ ev = 49 / 100 * m ∧ |dx| ≤ 1 ∧ |dz| ≤ 1 ∧ |p1| ≤ 1 ∧ |p2| ≤ 1 ∧
+      cross2 (((-a1 + b1) / 2 + ee * dx, (a2 + b2) / 2 + ee * dz) : ℚ × ℚ) (-(a1 + ev * p1), a2 + ev * p2) < 0 :=
+  ⟨fun m hm => by linarith, repair_two_passes_old_factor_fails⟩
 
 /-- Reversing a triangle (what the flip `vs[0..3] = vs[3],vs[2],vs[1],vs[0]` does to every triangle
 of the quad) keeps its crossing score and negates its normal. -/
